@@ -622,3 +622,83 @@ V('n-arc-offsets-local-table', ['C16', 'C19'], [(H, """        radius = None
         i = offsets["I"]
         j = offsets["J"]
 """)], neutral=True)
+
+# ---------------------------------------------------------------- round-5 / round-6 rules
+V('c13-delete-compares-text', ['C13'], [(S, """            if (self.excludedRegions[index].id == regionId):
+                del self.excludedRegions[index]""", """            if (str(self.excludedRegions[index].id) == str(regionId)):
+                del self.excludedRegions[index]""")])
+V('c08-home-resets-mode', ['C08'], [(A, """        self.current = 0
+        self.offset = 0
+""", """        self.current = 0
+        self.offset = 0
+        self.absoluteMode = True
+""")])
+V('c08-units-clear-offset', ['C08'], [(A, """        self.unitMultiplier = float(unitMultiplier)
+""", """        self.unitMultiplier = float(unitMultiplier)
+        self.offset = 0
+""")])
+V('c20-code-kept-when-no-command', ['C20', 'C18'], [(G, """        else:
+            self._code = None
+            self._gcode = None
+            self._subCode = None
+""", """        else:
+            self._code = None
+            self._gcode = None
+""")])
+V('c01-handler-returns-early-when-disabled', ['C01', 'C14', 'C02'], [(H, """        extruderPosition = None
+        feedRate = None
+        x = None
+        y = None
+        z = None
+
+        for label, value in self.gcodeParser.parse(cmd).parameterItems():
+            if (value is not None):
+                if (label == "E"):""", """        if (not self.state.isExclusionEnabled()):
+            return None
+
+        extruderPosition = None
+        feedRate = None
+        x = None
+        y = None
+        z = None
+
+        for label, value in self.gcodeParser.parse(cmd).parameterItems():
+            if (value is not None):
+                if (label == "E"):""")])
+V('c02-region-test-clamped', ['C02', 'C01', 'C08'], [(S, """            if (not anyExcluded and self.isPointExcluded(x, y)):
+                anyExcluded = True
+""", """            if (not anyExcluded and self.isPointExcluded(max(x, 0), y)):
+                anyExcluded = True
+""")])
+V('c19-m206-magnitude-only', ['C19'], [(H, """                if (label == "X"):
+                    position.X_AXIS.setHomeOffset(value)""", """                if (label == "X"):
+                    position.X_AXIS.setHomeOffset(abs(value))""")])
+V('c17-squared-distance-unguarded', ['C17', 'C12'], [(CR, """        return self.r >= math.hypot(x - self.cx, y - self.cy)
+""", """        deltaX = x - self.cx
+        deltaY = y - self.cy
+        return (deltaX * deltaX + deltaY * deltaY) <= (self.r * self.r)
+""")])
+V('n-squared-distance-guarded', ['C17', 'C12', 'C01', 'C02'], [(CR, """        return self.r >= math.hypot(x - self.cx, y - self.cy)
+""", """        deltaX = x - self.cx
+        deltaY = y - self.cy
+        return (self.r >= 0) and ((deltaX * deltaX + deltaY * deltaY) <= (self.r * self.r))
+""")], neutral=True)
+V('c18-zero-checksum-not-stripped', ['C18'], [(G, """        if (self._checksum is not None):
+            self._rawChecksum = "*" + self._checksum
+            self._checksum = int(self._checksum)
+            self.text = self.text[:-len(self._rawChecksum)]""", """        if (self._checksum is not None):
+            self._rawChecksum = "*" + self._checksum
+            self._checksum = int(self._checksum)
+            if (self._checksum):
+                self.text = self.text[:-len(self._rawChecksum)]""")])
+V('c14-z-only-move-reuses-decision', ['C14', 'C01'], [(S, """        anyExcluded = False
+
+        # Always walk""", """        anyExcluded = False
+
+        if (xyPairs[-2] is None and xyPairs[-1] is None and len(xyPairs) == 2):
+            return self.excluding
+
+        # Always walk""")])
+V('c05-generated-amount-in-file-units', ['C05', 'C04'], [(R, """            amount = self.extrusionAmount * direction
+""", """            amount = self.extrusionAmount * direction / position.E_AXIS.unitMultiplier
+""")])
